@@ -275,6 +275,43 @@ private:
 
         png_bytep row_ptr = (png_bytep)( &( buffer.data()[0]));
 
+        if( this->_number_passes > 1 )
+        {
+            // Interlaced image: every pass adds pixels to rows that must still hold the result of
+            // the earlier passes, so all rows have to be kept until the last pass is done. With
+            // the single row buffer used below each row would be merged into the leftovers of
+            // the row above it.
+            std::vector< row_buffer_helper_t > rows( this->_info._height
+                                                   , row_buffer_helper_t( rowbytes, true )
+                                                   );
+
+            for( std::size_t pass = 0; pass < this->_number_passes; pass++ )
+            {
+                for( std::size_t y = 0; y < rows.size(); ++y )
+                {
+                    png_bytep interlaced_row_ptr = (png_bytep)( &( rows[y].data()[0] ));
+
+                    png_read_rows( this->get_struct()
+                                 , &interlaced_row_ptr
+                                 , nullptr
+                                 , 1
+                                 );
+                }
+            }
+
+            for( std::ptrdiff_t y = 0; y < this->_settings._dim.y; ++y )
+            {
+                it_t first = rows[ this->_settings._top_left.y + y ].begin() + this->_settings._top_left.x;
+                it_t last  = first + this->_settings._dim.x; // one after last element
+
+                this->_cc_policy.read( first
+                                     , last
+                                     , view.row_begin( y ));
+            }
+
+            return;
+        }
+
         for( std::size_t pass = 0; pass < this->_number_passes; pass++ )
         {
             if( pass == this->_number_passes - 1 )
@@ -418,8 +455,24 @@ public:
     template< typename ...Images >
     void apply( any_image< Images... >& images )
     {
-        detail::png_type_format_checker format_checker( this->_info._bit_depth
-                                                      , this->_info._color_type
+        // The reader expands palette images to rgb8 and turns a tRNS chunk into an alpha
+        // channel (see reader::apply): match the image type against what will be decoded.
+        png_bitdepth::type   bit_depth  = this->_info._bit_depth;
+        png_color_type::type color_type = this->_info._color_type;
+
+        if( color_type == PNG_COLOR_TYPE_PALETTE )
+        {
+            color_type = PNG_COLOR_TYPE_RGB;
+            bit_depth  = 8;
+        }
+
+        if( png_get_valid( this->get_struct(), this->get_info(), PNG_INFO_tRNS ) )
+        {
+            color_type |= PNG_COLOR_MASK_ALPHA;
+        }
+
+        detail::png_type_format_checker format_checker( bit_depth
+                                                      , color_type
                                                       );
 
         if( !detail::construct_matched( images
